@@ -24,9 +24,11 @@ import (
 	"github.com/containers/nri-plugins/pkg/kubernetes"
 	logger "github.com/containers/nri-plugins/pkg/log"
 	cpuctl "github.com/containers/nri-plugins/pkg/resmgr/control/cpu"
+	resmgrevents "github.com/containers/nri-plugins/pkg/resmgr/events"
 	libmem "github.com/containers/nri-plugins/pkg/resmgr/lib/memory"
 	policyapi "github.com/containers/nri-plugins/pkg/resmgr/policy"
 	"github.com/containers/nri-plugins/pkg/verif/mc"
+	"github.com/containers/nri-plugins/pkg/verif/sched"
 	"github.com/containers/nri-plugins/pkg/verif/sysgen"
 	"github.com/containers/nri-plugins/pkg/verif/vos"
 )
@@ -99,6 +101,7 @@ type menu struct {
 	restartCuts                                bool  // offer restarts from a cache saved in the middle of the last request
 	recreateLive                               bool  // offer creating a same-named container while the old one is still alive in the runtime
 	ghost                                      bool  // also offer events that name a pod/container the plugin has never seen
+	coldDone                                   bool  // offer the end of a running container's cold-start period (policy event cold-start-done)
 }
 
 // ---------------------------------------------------------------------------
@@ -136,6 +139,23 @@ type wctr struct {
 	req   updSpec // current resource request of the container (changes with update events)
 	rank  int     // creation order
 	toldN int     // number of adjustments/updates applied
+	cold  bool    // the cold-start period of this incarnation has been ended (colddone delivered)
+}
+
+// coldTimerArmed: the policy has armed a cold-start timer for the container. Only then can a cold-start-done event
+// exist at all - the timer is its only source - so only then does the driver offer it.
+func (x *exec) coldTimerArmed(id string) bool {
+	if x.scn.policy != polTA {
+		return false
+	}
+	if s := tapolicy.VerifSnapshot(x.in.backend); s != nil {
+		for _, g := range s.Grants {
+			if g.ID == id {
+				return g.ColdTimer
+			}
+		}
+	}
+	return false
 }
 
 func (c *wctr) id() string {
@@ -471,29 +491,30 @@ type reply struct {
 }
 
 type exec struct {
-	scn        *scenario
-	w          *world
-	in         *inst
-	dir        string
-	log        []string    // told-view problems found while applying replies (C05 material)
-	addr       []addressed // every adjustment/update addressed to a container, for C12
-	last       *reply
-	restarts   int
-	prevTarget *wctr // target container of the previous event
-	frozenSync bool
-	frozenPods []string // world pod slots listed by a frozen Synchronize
-	frozenCtrs []string // container ids listed by a frozen Synchronize, with their state at freeze time
-	frozenLife map[string]int
-	cutAfter   string         // kind of the request a restartcut interrupted
-	addrMark   int            // index into addr where the last event started
-	cfgBefore  int            // configuration index before the last event
-	preSnap    *snap          // snapshot before the last event
-	lastSaves  [][]byte       // cache file content after every save made by the last event
-	lastKind   string         // kind of the last event
-	extraPod   *wpod          // a pod+container the runtime created while the plugin was down
-	rejected   []int          // indices (in the executed trace, prefix excluded) of configuration updates that were refused
-	evIndex    int            // index of the event being executed, -1 during the prefix
-	toldBefore map[string]res // told-view of every container before the last event
+	scn          *scenario
+	w            *world
+	in           *inst
+	dir          string
+	log          []string    // told-view problems found while applying replies (C05 material)
+	addr         []addressed // every adjustment/update addressed to a container, for C12
+	last         *reply
+	restarts     int
+	prevTarget   *wctr // target container of the previous event
+	frozenSync   bool
+	frozenPods   []string // world pod slots listed by a frozen Synchronize
+	frozenCtrs   []string // container ids listed by a frozen Synchronize, with their state at freeze time
+	frozenLife   map[string]int
+	cutAfter     string         // kind of the request a restartcut interrupted
+	addrMark     int            // index into addr where the last event started
+	cfgBefore    int            // configuration index before the last event
+	preSnap      *snap          // snapshot before the last event
+	lastSaves    [][]byte       // cache file content after every save made by the last event
+	lastKind     string         // kind of the last event
+	extraPod     *wpod          // a pod+container the runtime created while the plugin was down
+	rejected     []int          // indices (in the executed trace, prefix excluded) of configuration updates that were refused
+	evIndex      int            // index of the event being executed, -1 during the prefix
+	toldBefore   map[string]res // told-view of every container before the last event
+	replyChanged []string       // C15: replies that changed between the handler's return and their consumption
 }
 
 type addressed struct {
@@ -591,6 +612,26 @@ func (x *exec) step(ev string) *reply {
 			x.in.dead = true
 		}
 	}
+	// inFlight models the time a reply spends between the handler's return (lock released) and its consumption by the
+	// transport: under the controlled scheduler this is a scheduling point of its own, and the reply must still be what
+	// the handler returned once the thread runs again (a reply that aliases plugin state is rewritten by the next handler).
+	inFlight := func() {
+		if sched.Active() == nil || rp.panic != "" {
+			return
+		}
+		render := func() string {
+			d, _ := json.Marshal(struct {
+				A *api.ContainerAdjustment
+				U []*api.ContainerUpdate
+			}{rp.adjust, rp.updates})
+			return string(d)
+		}
+		before := render()
+		sched.Point("reply-in-flight:" + ev)
+		if after := render(); after != before {
+			x.replyChanged = append(x.replyChanged, fmt.Sprintf("%s: returned %s, consumed as %s", ev, before, after))
+		}
+	}
 	switch f[0] {
 	case "run":
 		pod := w.pod(f[1])
@@ -621,6 +662,7 @@ func (x *exec) step(ev string) *reply {
 			c.inc++
 			c.life = lifeNone
 			c.toldN = 0
+			c.cold = false
 		}
 		t := c.spec.t
 		c.req = updSpec{cpuReq: t.cpuReq, cpuLim: t.cpuLim, memLim: t.memLim}
@@ -630,6 +672,7 @@ func (x *exec) step(ev string) *reply {
 		w.byID[c.id()] = c
 		msg := c.nri(api.ContainerState_CONTAINER_CREATED, c.init)
 		guard(func() { rp.adjust, rp.updates, rp.err = p.CreateContainer(ctx, c.pod.nri(), msg) })
+		inFlight()
 		if rp.panic != "" {
 			break
 		}
@@ -662,6 +705,7 @@ func (x *exec) step(ev string) *reply {
 		u := x.scn.updates[idx]
 		r := encodeRes(u, res{})
 		guard(func() { rp.updates, rp.err = p.UpdateContainer(ctx, c.pod.nri(), c.nri(c.state(), c.told), r) })
+		inFlight()
 		if rp.panic != "" {
 			break
 		}
@@ -675,6 +719,7 @@ func (x *exec) step(ev string) *reply {
 		c := w.ctr(f[1])
 		rp.target = c
 		guard(func() { rp.updates, rp.err = p.StopContainer(ctx, c.pod.nri(), c.nri(c.state(), c.told)) })
+		inFlight()
 		if rp.panic != "" {
 			break
 		}
@@ -696,8 +741,31 @@ func (x *exec) step(ev string) *reply {
 			pods, ctrs = x.frozenLists()
 		}
 		guard(func() { rp.updates, rp.err = p.Synchronize(ctx, pods, ctrs) })
+		inFlight()
 		if rp.panic == "" {
 			x.applyUpdates(ev, "update", rp.updates, "")
+		}
+	case "colddone":
+		// The end of a cold-start period. The policy raises it from a timer through SendEvent; the event loop of this
+		// commit drops policy events (processEvent has the delivery commented out), so it is delivered here the way the
+		// policy.HandleEvent contract describes: under the resource manager lock, changes pushed when it reports any.
+		c := w.ctr(f[1])
+		rp.target = c
+		c.cold = true
+		m := x.in.m
+		guard(func() {
+			m.Lock()
+			defer m.Unlock()
+			changed, err := m.policy.HandleEvent(&resmgrevents.Policy{Type: tapolicy.ColdStartDone, Source: tapolicy.PolicyName, Data: c.id()})
+			rp.err = err
+			if changed {
+				if err := m.nri.updateContainers(); err != nil && rp.err == nil {
+					rp.err = err
+				}
+			}
+		})
+		if rp.panic == "" {
+			x.applyUpdates(ev, "push", rp.pushed, "")
 		}
 	case "reconf":
 		var idx int
@@ -848,6 +916,9 @@ func (x *exec) enabled() []string {
 			}
 			fallthrough
 		case lifeRunning:
+			if m.coldDone && c.life == lifeRunning && x.coldTimerArmed(c.id()) {
+				evs = append(evs, "colddone:"+c.slot)
+			}
 			if m.update {
 				for i := range x.scn.updates {
 					evs = append(evs, fmt.Sprintf("update:%s:%d", c.slot, i))
@@ -1028,6 +1099,9 @@ func (x *exec) snapshot() *snap {
 	}
 	for _, c := range all {
 		s.World = append(s.World, fmt.Sprintf("%s=%s/%d/%+v/%+v", c.id(), lifeNames[c.life], c.rank, c.told, c.req))
+		if c.cold {
+			s.World = append(s.World, c.id()+"=cold-start-ended")
+		}
 	}
 	if x.scn.menu.restartCuts {
 		s.World = append(s.World, fmt.Sprintf("last=%s/%d", x.lastKind, len(x.lastSaves)))
